@@ -199,7 +199,20 @@ struct StreamHolder
 	std::unique_ptr<std::streambuf> buf;
 	std::unique_ptr<std::istream> stream;
 	ScriptedBuf* scripted = nullptr;
+	std::string tmpPath;		// kind "file": a real file stream over a temporary file
 	std::istream& get() { return *stream; }
+	StreamHolder() = default;
+	StreamHolder(StreamHolder&& o) noexcept : buf(std::move(o.buf)), stream(std::move(o.stream)), scripted(o.scripted), tmpPath(std::move(o.tmpPath)) { o.tmpPath.clear(); o.scripted = nullptr; }
+	StreamHolder& operator=(StreamHolder&& o) noexcept
+	{
+		Close();
+		buf = std::move(o.buf); stream = std::move(o.stream); scripted = o.scripted; tmpPath = std::move(o.tmpPath);
+		o.tmpPath.clear(); o.scripted = nullptr;
+		return *this;
+	}
+	~StreamHolder() { Close(); }
+private:
+	void Close() { stream.reset(); if (!tmpPath.empty()) { unlink(tmpPath.c_str()); tmpPath.clear(); } }
 };
 
 // kind: "sstream" | "short<k>" (k bytes per underflow) | "nonseek" | "failat"/"throwat" (with failAt)
@@ -208,6 +221,20 @@ inline StreamHolder MakeStream(const std::string& kind, const std::string& data,
 	StreamHolder h;
 	if (kind == "sstream") {
 		h.stream = std::make_unique<std::istringstream>(data, std::ios::in | std::ios::binary);
+		return h;
+	}
+	if (kind == "file" || kind == "filecut") {
+		// std::ifstream over a real (temporary) file; "filecut": the file holds only the first failAt bytes
+		const char* dir = getenv("TMPDIR");
+		std::string path = std::string(dir && *dir ? dir : "/tmp") + "/vhfileXXXXXX";
+		const int fd = mkstemp(path.data());
+		if (fd < 0) { perror("mkstemp"); exit(3); }
+		const size_t n = kind == "filecut" ? std::min(failAt, data.size()) : data.size();
+		size_t done = 0;
+		while (done < n) { const ssize_t w = write(fd, data.data() + done, n - done); if (w <= 0) { perror("write"); exit(3); } done += static_cast<size_t>(w); }
+		close(fd);
+		h.tmpPath = path;
+		h.stream = std::make_unique<std::ifstream>(path, std::ios::in | std::ios::binary);
 		return h;
 	}
 	ScriptedBuf* sb = nullptr;
